@@ -438,9 +438,7 @@ fn leak_case(ctx: &Ctx, idx: u64, rng: &mut Rng) {
     let run = |measure: bool| -> i64 {
         let mut r = Rng::new(seed);
         let scfg = SCfg { budget: 2048, raw: true, initial: Some(64), allow_realloc: true, max_nb_chunks: 2, stable: true, parallel: false, codec: None, level: None, block_size: None, interval: None, levels: None, order: r.next_u64() };
-        if measure {
-            am::thread_track(true);
-        }
+        let _ = measure;
         {
             let route = Route::ALL[r.below(3)];
             let drop_early = r.chance(1, 3);
@@ -467,16 +465,35 @@ fn leak_case(ctx: &Ctx, idx: u64, rng: &mut Rng) {
                 }
             }
         }
-        let net = am::thread_net();
-        am::thread_track(false);
-        net
+        am::thread_net()
     };
-    let _warm = run(false);
-    let net = run(true);
+    // A leak shows as retained bytes that grow with every repetition of the same lifetime; memory
+    // that is merely retained (thread-local pools, caches, lazily created state) saturates. The
+    // identical lifetime is repeated 48 times on this thread and the growth of the retained bytes
+    // over runs 12..24 and 24..48 is compared.
+    let _ = run(false);
+    am::thread_track(true);
+    let mut marks = [0i64; 3];
+    for r in 1..=48 {
+        let _ = run(false);
+        match r {
+            12 => marks[0] = am::thread_net(),
+            24 => marks[1] = am::thread_net(),
+            48 => marks[2] = am::thread_net(),
+            _ => {}
+        }
+    }
+    am::thread_track(false);
+    let (g1, g2) = (marks[1] - marks[0], marks[2] - marks[1]);
     ctx.count("leak_scenarios", 1);
-    ctx.max("max_net_bytes_after_sorter_lifetime", net.max(0) as u64);
-    if net > 0 {
-        ctx.violation("leak", "leak", idx, J::obj().set("part", "leak accounting (guard allocator)").set("observed", format!("{} bytes allocated by a complete sorter lifetime were never freed", net)));
+    ctx.max("max_retained_bytes_after_48_identical_sorter_lifetimes", marks[2].max(0) as u64);
+    if g1 > 0 && g2 >= 2 * g1 - g1 / 4 {
+        ctx.violation(
+            "leak",
+            "leak",
+            idx,
+            J::obj().set("part", "leak accounting (guard allocator)").set("observed", format!("bytes retained by this thread keep growing with every identical sorter lifetime: +{} over runs 12..24, +{} over runs 24..48 (retained after 48 runs: {})", g1, g2, marks[2])),
+        );
     }
     ctx.eval(crate::prng::mix(&[idx, 0x1EAC]), true);
 }
@@ -571,7 +588,7 @@ pub fn run(ctx: &Ctx, part: &str) -> i32 {
     let _ = Tier::Quick;
     ctx.finish(
         "exploration",
-        "workload run under every memory monitor: (1) sorter buffer: insert sizes chosen from the live buffer state (hook H3) to fill it exactly, miss by one byte, leave less than one bound, exceed 1x/2x/5x the buffer, or be zero-length, under both reallocation policies and budgets 256 B..4 KiB (hook H2), followed by spill, chunk merge and one of the three output routes, outputs compared with the model; (2) reader: generated cursor histories and range/prefix iterators where every returned key and value is read in full before the next call, compared with the model; (3) merger iterators likewise; (4) real-size runs (128 KiB buffer doubling to the 10 MiB budget); (5) guard build: per-thread leak accounting over complete sorter lifetimes. A violation is a report of the monitor in use (guard allocator: layout mismatch at deallocation, guard-band overwrite, zero-size allocation, invalid free, leak; Miri/ASan/valgrind/TSan: any report, see the per-run entries), a panic from an overflow/bounds check, or output differing from the model. evaluations = scenarios; non-trivial = sorter scenario with a spill or reallocation / file with >= 2 data blocks / merge with a tie; distinct = distinct scenario hash",
+        "workload run under every memory monitor: (1) sorter buffer: insert sizes chosen from the live buffer state (hook H3) to fill it exactly, miss by one byte, leave less than one bound, exceed 1x/2x/5x the buffer, or be zero-length, under both reallocation policies and budgets 256 B..4 KiB (hook H2), followed by spill, chunk merge and one of the three output routes, outputs compared with the model; (2) reader: generated cursor histories and range/prefix iterators where every returned key and value is read in full before the next call, compared with the model; (3) merger iterators likewise; (4) real-size runs (128 KiB buffer doubling to the 10 MiB budget); (5) guard build: per-thread leak accounting over 48 repetitions of complete sorter lifetimes (retained bytes must not keep growing). A violation is a report of the monitor in use (guard allocator: layout mismatch at deallocation, guard-band overwrite, zero-size allocation, invalid free, leak; Miri/ASan/valgrind/TSan: any report, see the per-run entries), a panic from an overflow/bounds check, or output differing from the model. evaluations = scenarios; non-trivial = sorter scenario with a spill or reallocation / file with >= 2 data blocks / merge with a tie; distinct = distinct scenario hash",
         &["sanitizers see only executed paths; red-zone tools miss far out-of-bounds and intra-object accesses; Miri runs are small", "the initial buffer capacity set through hook H2 is >= 16 bytes (one bound)"],
         extra,
     )
